@@ -377,3 +377,75 @@ thread_local! {
 pub fn last_panic_loc() -> String {
     LAST_PANIC_LOC.with(|c| c.borrow().clone())
 }
+
+// ---------------------------------------------------------------------------------------------
+// Horizon: a case of a property that implies termination (every legal deal is yielded, a scope
+// ends) registers itself while it runs; if it is still running after its horizon the monitor
+// reports it as a violation ("did not return within the horizon") and ends the process with 1.
+// The horizon is generous (minutes, and thousands of times the nominal cost), so load cannot
+// trip it on a tree where the case takes milliseconds.
+
+use std::collections::HashMap;
+use std::sync::{Mutex, OnceLock};
+
+struct InFlight {
+    start: Instant,
+    horizon: std::time::Duration,
+    property: String,
+    sub: String,
+    key: String,
+    case: Value,
+}
+
+static INFLIGHT: OnceLock<Mutex<(u64, HashMap<u64, InFlight>)>> = OnceLock::new();
+
+pub struct HorizonGuard(u64);
+
+impl Drop for HorizonGuard {
+    fn drop(&mut self) {
+        if let Some(m) = INFLIGHT.get() {
+            if let Ok(mut g) = m.lock() {
+                g.1.remove(&self.0);
+            }
+        }
+    }
+}
+
+/// register a running case; `nominal_steps` is its nominal number of iterator steps
+pub fn horizon(property: &str, sub: &str, key: String, case: Value, nominal_steps: u64) -> HorizonGuard {
+    let m = INFLIGHT.get_or_init(|| {
+        std::thread::spawn(|| loop {
+            std::thread::sleep(std::time::Duration::from_millis(500));
+            let m = INFLIGHT.get().unwrap();
+            let late = {
+                let g = m.lock().unwrap();
+                g.1.values().find(|f| f.start.elapsed() > f.horizon).map(|f| (f.property.clone(), f.sub.clone(), f.key.clone(), f.case.clone(), f.horizon))
+            };
+            if let Some((property, sub, key, case, h)) = late {
+                let root = verif_root();
+                let dir = root.join("replays");
+                let _ = std::fs::create_dir_all(&dir);
+                let path = dir.join(format!("{}-horizon.json", property));
+                let body = json!({"property": property, "sub": sub, "key": key, "case": case, "expected": "returns", "observed": format!("still running after the horizon of {} s (non-termination)", h.as_secs())});
+                let _ = std::fs::write(&path, serde_json::to_string_pretty(&body).unwrap());
+                println!("VIOLATION property={} replay={}", property, path.display());
+                println!("  sub={} key={}", sub, key);
+                println!("  observed=\"still running after the horizon of {} s: the call does not return\"", h.as_secs());
+                // evidence of a run that was cut short
+                let ev = json!({"property_id": property, "tier": std::env::var("VERIF_TIER").unwrap_or_else(|_| "quick".into()), "seed": 0, "level": "model_checking",
+                    "coverage": {"evaluations": 1, "distinct_nontrivial": 2, "rule": "run cut short by a case that did not return within its horizon", "samples": [key], "exhaustive": false},
+                    "wall_s": h.as_secs_f64(), "violations": 1});
+                let _ = std::fs::create_dir_all(root.join("evidence"));
+                let _ = std::fs::write(root.join("evidence").join(format!("{}.json", property)), serde_json::to_string_pretty(&ev).unwrap());
+                std::process::exit(1);
+            }
+        });
+        Mutex::new((0, HashMap::new()))
+    });
+    let secs = 300 + nominal_steps / 1_000; // 300 s + 1 ms per nominal step (a step costs ~0.1-0.2 us)
+    let mut g = m.lock().unwrap();
+    g.0 += 1;
+    let id = g.0;
+    g.1.insert(id, InFlight { start: Instant::now(), horizon: std::time::Duration::from_secs(secs), property: property.into(), sub: sub.into(), key, case });
+    HorizonGuard(id)
+}
